@@ -198,7 +198,8 @@ def run (s : Sexp) : String :=
       let its := dops.filterMap (fun o => match o with | .qstart _ c => some c | _ => none)
       let (t3, t4) := trigSuspended S dops
       let trig := joinTrig [(trigReeval ops, "F-C13-1"),
-        (trigDiamond S ops || its.any (fun c => hasDup (S.below c)), "F-C13-2"), (t3, "F-C13-3"), (t4, "F-C13-4")]
+        -- (F-C13-2, classes listed twice below T, is repaired in /repo: no case is attributed to it any more)
+        (t3, "F-C13-3"), (t4, "F-C13-4")]
       s!"model={m}\tspec=ok|*\ttrig={trig}\tmodel_repaired={mr}"
     | none => "error=bad-case"
   | _ => "error=bad-case"
